@@ -46,7 +46,11 @@ class Variables:
                 assert set_expressions, "SET without values in expression(s) is unexpected."
                 eq = set_expressions[0].this
                 name = eq.this.sql()
-                value = eq.args.get("expression").sql()
+                value_expr = eq.args.get("expression")
+                value = value_expr.sql()
+                if not isinstance(value_expr, (exp.Literal, exp.Paren)):
+                    # the value of an expression is what's substituted, so keep it together when inlined
+                    value = f"({value})"
                 self._set(name, value)
             else:
                 # Haven't been able to produce this in tests yet due to UNSET being parsed as an Alias expression.
